@@ -678,3 +678,146 @@ func TestC04Conc(t *testing.T) {
 }
 
 var _ mesh.GossipData = (*event.State)(nil)
+
+// ---- C13 part 1 under concurrency: deltas of concurrent merges must be explainable by some order ----
+
+func TestC13Conc(t *testing.T) {
+	rec := vk.New("C13", "deltaconc")
+	defer rec.Finish(t)
+	rec.Rule("case = one real replica (durable or volatile) receiving 2-4 payloads at the same instant from different goroutines (identical copies of one payload, and older/newer variants, 50-300 keys the replica has or has not seen); " +
+		"necessary conditions of linearizability checked after joining, before any healing exchange: the replica's times are the point-wise maximum of its initial state and all payloads; per key and kind the times reported in the returned deltas are distinct and newer than the initial state; " +
+		"the maximal new time of every key is reported by exactly one delta; non-trivial = every case (all have overlapping payloads); distinct = (backend, payload plan, case index)")
+	n := vk.N(150, 6000)
+	for ci := 0; ci < n; ci++ {
+		if !vk.Mine(ci) {
+			continue
+		}
+		r := vk.NewRand(vk.Seed(), "C13conc", ci)
+		durable := ci%3 != 0
+		var rep *event.State
+		if durable {
+			rep = event.NewState(":memory:")
+		} else {
+			rep = event.NewState("")
+		}
+		nk := r.Range(50, 300)
+		keys := make([]evSpec, nk)
+		for i := range keys {
+			s := &event.Subscription{Peer: 9, Conn: security.ID(1000 + i), Ssid: message.Ssid{7, uint32(i)}, Channel: []byte("c/")}
+			keys[i] = evSpec{event.VerifSubs, s, s.Key(), fmt.Sprintf("k%d", i)}
+		}
+		init := shadow{}
+		for _, e := range keys {
+			if r.Chance(30) {
+				setClock(int64(r.Range(1, 5)))
+				rep.Add(e.ev)
+				init[skey(e)] = tpair{add: atomic.LoadInt64(&clock)}
+			}
+		}
+		ng := r.Range(2, 4)
+		type pl struct {
+			st *event.State
+			m  shadow
+		}
+		var pls []pl
+		base := shadow{}
+		for _, e := range keys {
+			base[skey(e)] = tpair{add: int64(r.Range(3, 9))}
+		}
+		mk := func(m shadow) pl {
+			st := event.NewState("")
+			for _, e := range keys {
+				if v, ok := m[skey(e)]; ok {
+					if v.add > 0 {
+						setClock(v.add)
+						st.Add(e.ev)
+					}
+					if v.del > 0 {
+						setClock(v.del)
+						st.Del(e.ev)
+					}
+				}
+			}
+			return pl{st, m}
+		}
+		for g := 0; g < ng; g++ {
+			m := shadow{}
+			for k, v := range base {
+				switch {
+				case g == 0 || r.Chance(60):
+					m[k] = v // identical copy: the same new entry from two neighbours at once
+				case r.Chance(50):
+					m[k] = tpair{add: v.add + int64(r.Range(1, 3))} // newer
+				default:
+					m[k] = tpair{add: v.add - int64(r.Range(1, 2)), del: int64(r.Range(0, 9))} // older add, some remove
+				}
+			}
+			pls = append(pls, mk(m))
+		}
+		deltas := make([]shadow, ng)
+		start := make(chan struct{})
+		var wg sync.WaitGroup
+		for g := 0; g < ng; g++ {
+			wg.Add(1)
+			go func(g int) {
+				defer wg.Done()
+				<-start
+				d := rep.Merge(pls[g].st)
+				if d != nil {
+					deltas[g] = readState(d.(*event.State))
+				} else {
+					deltas[g] = shadow{}
+				}
+			}(g)
+		}
+		close(start)
+		wg.Wait()
+		want := init.clone()
+		for _, p := range pls {
+			want.mergeModel(p.m)
+		}
+		names := map[string]string{}
+		for _, e := range keys {
+			names[skey(e)] = e.nm
+		}
+		be := map[bool]string{true: "durable-memory", false: "volatile"}[durable]
+		got := readState(rep)
+		rec.Inc("concurrent_merge_groups")
+		if d := diffShadow(got, want, names); d != "" {
+			rec.Violation(ci, "concurrent-merge-lost-update/"+be, fmt.Sprintf("%d payloads merged at once into a %s replica: state differs from the point-wise maximum: %.300s", ng, be, d), nil)
+		} else {
+			for k := range want {
+				for kind := 0; kind < 2; kind++ {
+					pick := func(t tpair) int64 {
+						if kind == 0 {
+							return t.add
+						}
+						return t.del
+					}
+					seen := map[int64]int{}
+					for g := range deltas {
+						if v := pick(deltas[g][k]); v != 0 {
+							seen[v]++
+							if v <= pick(init[k]) {
+								rec.Violation(ci, "concurrent-merge-delta-reports-old-time/"+be, fmt.Sprintf("%s: delta reports time %d, initial %d", names[k], v, pick(init[k])), nil)
+							}
+						}
+					}
+					for v, c := range seen {
+						if c > 1 {
+							rec.Violation(ci, "concurrent-merge-same-update-in-two-deltas/"+be, fmt.Sprintf("%s: %d payloads merged at once into a %s replica; time %d of %s is reported as new by %d deltas", names[k], ng, be, v, names[k], c), nil)
+						}
+					}
+					if fin := pick(want[k]); fin > pick(init[k]) && seen[fin] != 1 {
+						rec.Violation(ci, "concurrent-merge-new-update-in-no-delta/"+be, fmt.Sprintf("%s: final time %d (initial %d) reported by %d deltas", names[k], fin, pick(init[k]), seen[fin]), nil)
+					}
+				}
+			}
+		}
+		rec.Case(vk.Hash(be, ng, nk, ci), true)
+		if rec.WantSample() {
+			rec.Sample(map[string]interface{}{"case": ci, "backend": be, "payloads_at_once": ng, "keys": nk})
+		}
+		rep.Close()
+	}
+}
